@@ -3,6 +3,7 @@ import SeqVerif.Model.C03Lids
 import SeqVerif.Proofs.C03Posting
 import SeqVerif.Proofs.C03FracProofs
 import SeqVerif.Proofs.C03Select
+import SeqVerif.Proofs.C03SearchProofs
 import SeqVerif.Extracted.C03
 /-!
 # C03 - answers do not depend on the fraction form (active = sealed = reloaded = any cache)
@@ -181,6 +182,18 @@ example : Quiescent exampleActive :=
     · simp only [List.mem_cons, List.not_mem_nil, or_false] at ht; subst ht; exact ⟨by decide, by decide⟩
     · simp only [List.mem_cons, List.not_mem_nil, or_false] at ht
       rcases ht with rfl | rfl <;> exact ⟨by decide, by decide⟩⟩
+
+/-- **C03 (answers).**  A processor that works only through the index interface - LID borders from the time window by
+binary search over `LessOrEqual`, any boolean combination of tokens over the posting nodes, total, IDs with the
+limit and the consecutive-duplicate rule, histogram buckets - returns the same answer on the fraction sealed from an
+active fraction as on the active fraction itself (for every query over existing tokens, window, order, limit, interval) -/
+theorem c03_search_sealed_eq_active (size cap rbs base : Nat) (posOf : ID → Nat) (a : Active) (h : Quiescent a)
+    (hsize : 1 ≤ size) (hcap : 1 ≤ cap) (q : Q) (hq : q.wf a.fields.flatten.length)
+    (fromMID toMID : Nat) (rev : Bool) (limit histInterval : Nat) :
+    ∃ s, sealFrac size size cap rbs base posOf a = .ok s ∧
+      search (sealedIndex s) q fromMID toMID rev limit histInterval = search (activeIndex a) q fromMID toMID rev limit histInterval := by
+  obtain ⟨s, hs, hag⟩ := seal_agrees size cap rbs base posOf a h hsize hcap
+  exact ⟨s, hs, search_agree a s hag q hq fromMID toMID rev limit histInterval⟩
 
 /-! ## Obligations on facts re-extracted from /repo on every run -/
 
